@@ -126,4 +126,23 @@ SusTerms(mo, a, b, c, d) ==
   LET A == QMat(mo, a, b)  B == QMat(mo, c, d)  E == Spectrum(mo) IN
   { <<p[1], p[2], E[p[2]] - E[p[1]], CMul(A[p], B[<<p[2], p[1]>>])[1], CMul(A[p], B[<<p[2], p[1]>>])[2]>> :
        p \in {q \in DOMAIN A : <<q[2], q[1]>> \in DOMAIN B} }
+
+\* ---- two-particle Green's function: the closed paths of the six time orderings ----------------------
+\* chi_ijkl = int <T c_i(t1) c_j(t2) c^+_k(t3) c^+_l(0)> e^{i w1 t1 + i w2 t2 - i w3 t3}.  For the time ordering
+\* t_{p1} > t_{p2} > t_{p3} > 0 of the three operators O_1 = c_i, O_2 = c_j, O_3 = c^+_k the integrand is
+\*    sign(p) sum over closed paths a -> b -> c -> d -> a of
+\*    <a|O_p1|b><b|O_p2|c><c|O_p3|d><d|c^+_l|a>  w_a  e^{t_p1 (E_a-E_b)} e^{t_p2 (E_b-E_c)} e^{t_p3 (E_c-E_d)} .
+\* The module lists the paths with their exact numerators (over D^4); the time-ordered triple integral of the exponentials is
+\* carried out by the comparator (exact case split on vanishing exponents), see DESIGN.md.
+Perms3 == << <<1, 2, 3>>, <<1, 3, 2>>, <<2, 1, 3>>, <<2, 3, 1>>, <<3, 1, 2>>, <<3, 2, 1>> >>
+PermSign == <<1, -1, -1, 1, 1, -1>>
+ChiPaths(mo, i, j, k, l) ==
+  LET O == << CMat(mo, i), CMat(mo, j), MAdj(CMat(mo, k)) >>
+      X4 == MAdj(CMat(mo, l))
+      paths(pi) ==
+        LET P1 == O[Perms3[pi][1]]  P2 == O[Perms3[pi][2]]  P3 == O[Perms3[pi][3]]
+            closed == { x \in (DOMAIN P1) \X (DOMAIN P3) : <<x[1][2], x[2][1]>> \in DOMAIN P2 /\ <<x[2][2], x[1][1]>> \in DOMAIN X4 }
+            num(x) == CMul(CMul(P1[x[1]], P2[<<x[1][2], x[2][1]>>]), CMul(P3[x[2]], X4[<<x[2][2], x[1][1]>>])) IN
+        { <<pi, x[1][1], x[1][2], x[2][1], x[2][2], num(x)[1], num(x)[2]>> : x \in closed } IN
+  UNION { paths(pi) : pi \in 1..6 }
 =============================================================================
